@@ -1103,15 +1103,17 @@ class TestResult(unittest.TestResult):
                 self.options.verbose >= 4):
             gc_opts = gc.get_debug()
             gc.set_debug(gc.DEBUG_SAVEALL)
-            gc.collect()
-            if gc.garbage:
-                g = DiGraph(gc.garbage)
-                for obj in gc.garbage:
-                    g.add_neighbors(obj, gc.get_referents(obj))
-                cycles = [[repr_lines(o) for o in c] for c in g.sccs()]
-                del gc.garbage[:]
-                g = obj = None  # avoid to hold cyclic garbage
-            gc.set_debug(gc_opts)
+            try:
+                gc.collect()
+                if gc.garbage:
+                    g = DiGraph(gc.garbage)
+                    for obj in gc.garbage:
+                        g.add_neighbors(obj, gc.get_referents(obj))
+                    cycles = [[repr_lines(o) for o in c] for c in g.sccs()]
+                    del gc.garbage[:]
+                    g = obj = None  # avoid to hold cyclic garbage
+            finally:
+                gc.set_debug(gc_opts)
         gccount = gc.collect() \
             if uses_refcounts and self.options.gc_after_test else 0
         self.options.output.stop_test(test, gccount)
